@@ -269,7 +269,7 @@ def check_karatsuba_step(chk, v):
             i = lp["var"]
             for root, lo_s, hi_s in ((A, A0, A1), (B, B0, B1)):
                 if p["val"] == sym.add(sym.idx(root, i), sym.idx(root, sym.add(h, i))):
-                    if (lp["lo"], lp["cmp"], lp["hi"]) != (ZERO, "<", h):
+                    if not summ.visits(lp, ZERO, h):
                         problems.append("half-sum loop covers [%s,%s), expected [0,h)" % (sym.show(lp["lo"]), sym.show(lp["hi"])))
                     temps[p["lv"][1]] = sym.add(lo_s, hi_s)
     products = {}        # destination pointer -> symbolic product
@@ -306,7 +306,7 @@ def check_karatsuba_step(chk, v):
             if lt is None:
                 problems.append("combination %s is not linear" % sym.show(p["val"]))
                 continue
-            if (lp["lo"], lp["cmp"], lp["hi"]) != (ZERO, "<", sm1):
+            if not summ.visits(lp, ZERO, sm1):
                 problems.append("combination loop covers [%s,%s), expected [0,size-1)" % (sym.show(lp["lo"]), sym.show(lp["hi"])))
             for c, atom in lt:
                 if atom[0] != "idx" or atom[1] != R:
@@ -320,7 +320,7 @@ def check_karatsuba_step(chk, v):
                 tmpval[arr] = sym.add(tmpval[arr], sym.mul(I(sgn), Rwin[off]))
         elif arr == R and p["op"] == "+=" and p["val"][0] == "idx" and p["val"][1] in tmpval and p["val"][2] == i:
             off = sym.sub(ix, i)
-            if (lp["lo"], lp["cmp"], lp["hi"]) != (ZERO, "<", sm1):
+            if not summ.visits(lp, ZERO, sm1):
                 problems.append("recombination loop covers [%s,%s), expected [0,size-1)" % (sym.show(lp["lo"]), sym.show(lp["hi"])))
             Rwin["mid"] = (off, tmpval[p["val"][1]])
     gap = [p for p in stores if not p["loops"] and p["lv"] == sym.idx(R, sm1) and p["op"] == "=" and p["val"] == ZERO]
